@@ -69,8 +69,13 @@ pub fn run(args: &Args, rep: &mut Report) {
         let shape = Shape { max_samples: 5, max_contigs: 4, max_contig_len: 2500, iupac: true, allow_many_samples: false };
         let mut set = gen::sample_set(&mut rng, &p, &shape);
         let pansn = i % 2 == 0;
+        // sample names whose order of appearance is not their lexicographic order (V9 < V10 ...)
+        let mut tags: Vec<usize> = (0..set.samples.len()).map(|j| [9usize, 10, 2, 33, 1, 100, 5][j % 7] + 7 * (j / 7)).collect();
+        if i % 4 >= 2 {
+            tags.sort();
+        }
         for (j, s) in set.samples.iter_mut().enumerate() {
-            let sn = if pansn { format!("V{:02}#{}", j, j % 2) } else { format!("v{:02}", j) };
+            let sn = if pansn { format!("V{}#{}", tags[j], j % 2) } else { format!("v{}", tags[j]) };
             for (cj, c) in s.contigs.iter_mut().enumerate() {
                 let desc = c.0.split_once(' ').map(|(_, d)| format!(" {}", d)).unwrap_or_default();
                 c.0 = if pansn { format!("{}#c{}{}", sn, cj, desc) } else { format!("c{}{}", cj, desc) };
